@@ -64,7 +64,7 @@ var rewriteVals = []string{
 	"NOERROR;HTTPS;1 . alpn=h3", "NOERROR;SRV;1 2 80 srv.example.org", "NOERROR;PTR;ptr.example.org.",
 }
 var webPaths = []string{"", "/", "/ads.js", "/banner/728x90/img.png", "/path/AdS.js?x=1", "/adsadsads/ads.gif", "/img/banner.png?track=1", "/trackertracker/t.js",
-	"/ad/x.gif", "/ad?slot=1", "/path/ads.js?x=1"}
+	"/ad/x.gif", "/ad?slot=1", "/path/ads.js?x=1", "/ADS.js"}
 var pathPatterns = []string{"/ads.js", "/banner/*/img", "/adsads", "ads.gif|", "/img/banner", "track=", "/AdS.js", "/tracker",
 	"|https://*/ads", ":8080/", "^ads.js^", ".png?track", "/img/*.png?track=1|", "|ws"}
 var typeOpts = []string{"script", "image", "~script", "subdocument", "xmlhttprequest", "script,image", "~image,~other", "document", "stylesheet",
@@ -356,7 +356,17 @@ func GenRule(ch *core.Chooser, k int, hosts []string, prev []string) string {
 		return h
 	case KWebPath:
 		pre := []string{"", "||" + h, "@@||" + h, "@@", "||" + h, "|https://" + h, "://" + h, "||" + h + ":8080"}[ch.Intn("rule.webpre", 8)]
-		return pre + pick(ch, "rule.path", pathPatterns)
+		pat := pick(ch, "rule.path", pathPatterns)
+		if !strings.HasPrefix(pat, "/") && len(pre) > 2 {
+			// a host in front of a pattern that does not start a path
+			// gives nothing that matches anything
+			if strings.HasPrefix(pre, "@@") && !strings.HasPrefix(pat, "|") {
+				pre = "@@"
+			} else {
+				pre = ""
+			}
+		}
+		return pre + pat
 	case KWebTyped:
 		pre := []string{"||", "@@||"}[ch.Intn("rule.allow", 2)]
 		return pre + h + "^$" + pick(ch, "rule.type", typeOpts)
